@@ -719,6 +719,19 @@ func c13(c *Ctx) {
 						isEmpty := func(x ssa.Value) bool { s, ok := constString(x); return ok && s == "" }
 						if cmpHolds(factsAt(ap.Block()), isName, isEmpty, token.NEQ) && strings.Contains(es, "+\":\")+") {
 							okApp = true
+							// ... and whenever it is non-empty: between computing the name and appending the tag nothing but
+							// the emptiness test decides (a key the regex matches always yields its tag)
+							for _, cd := range condsFor(ap.Block()) {
+								if cd.If == nil || !(cd.If.Block() == cl.Block() || cl.Block().Dominates(cd.If.Block())) {
+									continue // conditions established before the name was computed (regex set, loop)
+								}
+								if !instrDominates(cl.(ssa.Instruction), cd.If) {
+									continue
+								}
+								f := canonOf(cd)
+								isTest := (f.Op == token.NEQ || f.Op == token.EQL) && ((isName(f.X) && isEmpty(f.Y)) || (isName(f.Y) && isEmpty(f.X)))
+								r.Check("tags:appended-for-every-named-key:"+re, isTest, ap.Pos(), "the tag is appended whenever the name is non-empty; it also depends on "+condExpr(cd.V))
+							}
 						}
 					}
 				}
